@@ -1128,13 +1128,13 @@ def check(run: Run):
                 "dictionary (dropped / re-cased / wrong-typed keys, parameter edits).  Non-trivial = load case whose dictionary "
                 "differs from a plain default-named save image, or a model with sources / non-default noise / custom name.")
     if SCRATCH.exists():
-        shutil.rmtree(SCRATCH, ignore_errors=True)
+        shutil.rmtree(SCRATCH.parent, ignore_errors=True)
     tmp = SCRATCH / "files"
     tmp.mkdir(parents=True, exist_ok=True)
     try:
         _check(run, thorough, version, tmp)
     finally:
-        shutil.rmtree(SCRATCH, ignore_errors=True)
+        shutil.rmtree(SCRATCH.parent, ignore_errors=True)
 
 
 def _check(run: Run, thorough: bool, version: str, tmp: Path):
@@ -1308,7 +1308,7 @@ def replay(run: Run, path: str):
                   "| configuration:", inp["spec"])
             oracle_history(run, dict(spec=inp["spec"], steps=inp["steps"]), tmp, 0)
         finally:
-            shutil.rmtree(SCRATCH, ignore_errors=True)
+            shutil.rmtree(SCRATCH.parent, ignore_errors=True)
         hits = [f for f in run._fails] + [dict(signature=s, what=w) for s, w in run._known_hit.items()]
         for f in hits:
             print("REPLAY", f["signature"], "-", f["what"], "| expected", f.get("expected"), "| observed", f.get("observed"))
@@ -1327,7 +1327,7 @@ def replay(run: Run, path: str):
             oracle_self_consistent(run, m, inp)
             oracle_final_parameters(run, m, getattr(m, "_c12_sampling_state", None), inp)
     finally:
-        shutil.rmtree(SCRATCH, ignore_errors=True)
+        shutil.rmtree(SCRATCH.parent, ignore_errors=True)
     hits = [f for f in run._fails] + [dict(signature=s, what=w) for s, w in run._known_hit.items()]
     for f in hits:
         print("REPLAY", f["signature"], "-", f["what"])
